@@ -527,3 +527,23 @@ def c07(tier):
                                 dict(integ=integ, phys=phys, nrows=n, fixcuts=[a, b], maxcuts=None if n <= 9 else ((2 if n > 11 else 3) if tier == "quick" else 4), tie=(tier == "quick")), timeout=900))
             us.append(U(f"grouped_ser:{integ}:p{phys}", "reframe", "grouped_ser", dict(integ=integ, phys=phys), timeout=600))
     return us + [twin(us[0]), twin(us[1])]
+
+
+@prop("C12", functions=["pyjelly/serialize/streams.py:*", "pyjelly/serialize/encode.py:*", "pyjelly/serialize/lookup.py:*", "pyjelly/serialize/flows.py:*", "pyjelly/parse/decode.py:*",
+                        "pyjelly/integrations/generic/serialize.py:flat_stream_to_frames", "pyjelly/integrations/rdflib/serialize.py:flat_stream_to_frames",
+                        "pyjelly/integrations/generic/parse.py:parse_jelly_flat", "pyjelly/integrations/rdflib/parse.py:parse_jelly_flat"],
+      bounds={"quick": {"interleavings": "two workloads (serializer+serializer, serializer+parser, parser+parser; 3 statements / 4 frames each) advanced one generator step at a time under a symbolic schedule of 7 booleans (every interleaving), after a symbolic history of 0..2 created-and-abandoned streams (one abandoned mid-stream, one that raised mid-statement); both integrations",
+                        "determinism": "each workload run twice in one process must be byte-identical"},
+              "thorough": {"interleavings": "also three workloads, schedules of 10 booleans"}},
+      outside="NOT CLAIMED: pre-emptive THREAD schedules (CrossHair executes one thread; no symbolic thread scheduler for CPython is available) and determinism across PROCESSES / PYTHONHASHSEED values (the seed is fixed before the interpreter starts and cannot be a symbolic variable)",
+      explanation="H-INTERLEAVE (reduced scope: generator-step interleavings and same-process determinism only)")
+def c12(tier):
+    us = []
+    combos = [[["ser", "A"], ["ser", "B"]], [["ser", "A"], ["parse", "B"]], [["parse", "A"], ["parse", "B"]], [["ser", "A"], ["ser", "A"]]]
+    for integ in ("generic", "rdflib"):
+        for ci, ws in enumerate(combos):
+            for hh in range(3):
+                us.append(U(f"interleave:{integ}:c{ci}:h{hh}", "interleave", "interleave", dict(integ=integ, workloads=ws, steps=7, h=hh), timeout=900))
+        if tier != "quick":
+            us.append(U(f"interleave3:{integ}", "interleave", "interleave", dict(integ=integ, workloads=[["ser", "A"], ["parse", "B"], ["ser", "C"]], steps=10), timeout=1800))
+    return us + [twin(us[0])]
